@@ -494,3 +494,15 @@ Definition wf_update (w4 : bool) (u : update_msg) : Prop :=
 Definition wf_msg (w4 : bool) (m : msg) : Prop :=
   len (ser_msg w4 m) <= 4096 /\
   match m with MOpen o => wf_open o | MUpdate u => wf_update w4 u | _ => True end.
+
+(* parameters of sendUpdate as the Go types guarantee them *)
+Definition wf_uparams (asn : N) (nh : list N) (a : adv) : Prop :=
+  asn < 4294967296 /\ wf_ip4 nh /\ wf_adv a.
+
+(* the two length octets of the message header *)
+Definition hdr_len (bs : list N) : N := nth 16 bs 0 * 256 + nth 17 bs 0.
+
+(* an optional parameter that is a capability list whose known capabilities
+   (codes 1, 65) have their RFC length / just: is a capability parameter *)
+Definition caps_only (p : param) : Prop := exists cs, p = PCaps cs /\ Forall wf_cap cs.
+Definition is_pcaps (p : param) : Prop := match p with PCaps _ => True | POther _ _ => False end.
